@@ -559,7 +559,7 @@ pub fn run(tier: Tier) -> i32 {
     // call protocol
     let rt = protocol_runtime();
     let d = json!({"a": 1, "b": [1, 2], "xs": [{"a": 1, "b": "x"}, {"a": 2}, {"b": null}]});
-    let atoms = ["a", "b", "&a", "`1`", "rec2(a)", "rec2(&b, b)"];
+    let atoms = ["a", "b", "&a", "`1`", "rec2(a)", "rec2(&b, b)", "&b | a"];
     let mut vecs: Vec<Vec<&str>> = vec![vec![]];
     let maxargs = tier.pick(3, 4);
     let mut layer: Vec<Vec<&str>> = vec![vec![]];
